@@ -1,6 +1,6 @@
 import ZipVerif.Model.IO
 import ZipVerif.Model.Types
-import ZipVerif.Model.Text
+import ZipVerif.Model.TextBytes
 /-
 Byte-exact model of the crate's record serialisers (src/write.rs, src/spec.rs) and parsers
 (src/spec.rs, src/read.rs).  Serialisers return the list of chunks handed to `write_all`, one per
